@@ -23,6 +23,9 @@ The driver maps every view program onto tasks of the abstract discipline model `
 * `poll i` — a spawned task of some request; every one of them is wrapped, so by
   `C20_wrapped_isolated` the observation does not depend on when it is polled: no model action.
 
+The table follows the code AFTER the repairs hooks/fix-c20-1/3/4 (every one of these sites is now wrapped); the
+descriptions of unwrapped sites above and the fields `exposed`/`site`/`action` are the PRE-repair table, selected by
+`old := true` (`lm_c20 old`) and pinned by the `#guard`s at the end of the file.
 Which sites are wrapped is this table — modelled; the run against the real code is what checks it.
 The observable is, per response, the set of context tags each leaf saw (`<request>.<provider scope>`;
 `a<request>` = whose arena a cleanup saw). -/
@@ -216,6 +219,8 @@ structure Ctx where
   need : List Nat := []
   /-- the innermost Provider/Suspense that is rendered late (F-C20-2) -/
   site : Option Nat := none
+  /-- the site table of the code BEFORE the repairs fix-c20-1/3/4 (kept for the regression `#guard`s below) -/
+  old : Bool := false
 
 def mkRec (id : Nat) (kind : Kind) (ctx : Ctx) : Rec :=
   { id, kind, scope := ctx.scope, chain := ctx.chain, need := ctx.need, site := ctx.site }
@@ -230,7 +235,9 @@ structure CAcc where
 /-- `base` = number of owners of the world before this request; `r` = request; `io` = in-order stream -/
 partial def compile (base r : Nat) (io : Bool) (ctx : Ctx) (acc : CAcc) : P → CAcc
   | .L id =>
-    let k := if ctx.late && !ctx.covered then Kind.exposed else Kind.tag
+    -- repaired (fix-c20-1): the view a Suspend outside Suspense resolves to is rendered under the Suspend's captured
+    -- owner (`OwnedView::new_with_borrowed_owner`); before, by the stream's poll under the ambient owner
+    let k := if ctx.old && ctx.late && !ctx.covered then Kind.exposed else Kind.tag
     { acc with recs := acc.recs ++ [mkRec id k ctx] }
   -- `For` captures `Owner::current()` in the component body and renders every row under it (wrapped)
   | .F _ id => { acc with recs := acc.recs ++ [mkRec id .tag ctx] }
@@ -238,7 +245,7 @@ partial def compile (base r : Nat) (io : Bool) (ctx : Ctx) (acc : CAcc) : P → 
   | .C id => { acc with recs := acc.recs ++ [mkRec id .cleanup ctx] }
   | .V k c =>
     let o := base + acc.owners.length
-    let isSite := ctx.late && hasU c
+    let isSite := ctx.old && ctx.late && hasU c
     let siteId := acc.recs.length
     let acc := { acc with
       owners := acc.owners ++ [{ req := r, parent := some ctx.scope, arena := r }]
@@ -249,14 +256,14 @@ partial def compile (base r : Nat) (io : Bool) (ctx : Ctx) (acc : CAcc) : P → 
   | .W _ c =>
     -- Router + FlatRoutes/Routes: the matched route's view is an `OwnedView` under a child of the owner the
     -- router captured in its component body (`choose_ssr` / `Outlet`): like a Provider without a value
-    let isSite := ctx.late && hasU c
+    let isSite := ctx.old && ctx.late && hasU c
     let siteId := acc.recs.length
     let acc := { acc with
       recs := if isSite then acc.recs ++ [{ mkRec siteId .site ctx with site := some siteId, hasSusp := hasSusp c }]
               else acc.recs }
     compile base r io { ctx with covered := true, site := if isSite then some siteId else ctx.site } acc c
   | .U c =>
-    let isSite := ctx.late && hasU c
+    let isSite := ctx.old && ctx.late && hasU c
     let siteId := acc.recs.length
     let acc := { acc with
       recs := if isSite then acc.recs ++ [{ mkRec siteId .site ctx with site := some siteId, hasSusp := hasSusp c }]
@@ -290,7 +297,8 @@ partial def compile (base r : Nat) (io : Bool) (ctx : Ctx) (acc : CAcc) : P → 
   | .D g a =>
     -- `ArcAction::dispatch`: `reactive_graph::spawn` = Sandboxed only, NOT ScopedFuture (F-C20-3)
     let ctx := { ctx with need := ctx.need ++ [g] }
-    { acc with seen := acc.seen ++ [g], recs := acc.recs ++ [mkRec a .action ctx] }
+    -- repaired (fix-c20-3): the action's future is a `ScopedFuture` (owner of the dispatch, no observer)
+    { acc with seen := acc.seen ++ [g], recs := acc.recs ++ [mkRec a (if ctx.old then .action else .tag) ctx] }
   | .I a =>
     -- `Effect::new_isomorphic`: the task runs the body under `owner.with_cleanup`
     { acc with recs := acc.recs ++ [mkRec a .tag ctx] }
@@ -329,6 +337,8 @@ structure DS where
   actionBad : Bool := false
   abortCleanupBad : Bool := false
   siteBad : Bool := false
+  /-- pre-repair site table -/
+  old : Bool := false
 
 def DS.exec (d : DS) (t : Task) : DS :=
   let i := d.st.tasks.length
@@ -444,7 +454,7 @@ def abort (d : DS) (r b : Nat) (q : RQ) : DS :=
   -- request b's; an arena handle read there resolves in b's arena (F-C20-4; per-request arenas only, which is
   -- why such aborts are not generated: the global-arena configuration has nothing to confuse)
   let d := { d with abortCleanupBad := d.abortCleanupBad ||
-    (b != r && q.recs.any fun (rec : Rec) => rec.kind == Kind.cleanup && !rec.done) }
+    (d.old && b != r && q.recs.any fun (rec : Rec) => rec.kind == Kind.cleanup && !rec.done) }
   -- a late Provider/Suspense/route owner of r parked in ANOTHER request's cleanups (F-C20-2) outlives r
   let d := { d with siteBad := d.siteBad || !q.parked.isEmpty }
   let d := d.exec { req := r, captured := {}, wrapped := false, sandboxed := false, steps := [.unset q.root] }
@@ -499,7 +509,7 @@ def idx? (d : DS) (s : String) : Option (Nat × RQ) := do
 
 def step (d : DS) (line : String) : DS × String :=
   match words line with
-  | ["case", n] => ({}, s!"case {n}")
+  | ["case", n] => ({ old := d.old }, s!"case {n}")
   | ws =>
   if d.ended then (d, "bad-op") else
   match ws with
@@ -508,7 +518,7 @@ def step (d : DS) (line : String) : DS × String :=
     | some r, some p =>
       if r != d.reqs.length || r > 2 || !(mode == "io" || mode == "ooo") then (d, "bad-op") else
       let root := d.world.owners.length
-      let acc := compile (root + 1) r (mode == "io") { scope := root } {} p
+      let acc := compile (root + 1) r (mode == "io") { scope := root, old := d.old } {} p
       let w : World := { d.world with owners := d.world.owners ++ [{ req := r, parent := none, arena := r }] ++ acc.owners }
       let q : RQ := { io := mode == "io", gates := gatesOf p, endGates := (gatesOf p).filter (fun g => !(idleGates p).contains g), recs := acc.recs, nodes := acc.nodes, root := root,
                       provides := (root, r * 1000) :: acc.provides }
@@ -566,4 +576,28 @@ def step (d : DS) (line : String) : DS × String :=
     ({ d with ended := true }, " ".intercalate obs ++ " ## " ++ v)
   | _ => (d, "bad-op")
 
-def main : IO Unit := runDriver step {}
+/-! ### regression witnesses: the pre-repair table reproduces the four findings, the current table does not -/
+
+def runLines (old : Bool) (lines : List String) : String :=
+  let (_, outs) := lines.foldl (init := (({ old := old } : DS), ([] : List String))) fun (d, outs) l =>
+    let (d, o) := step d l
+    (d, outs ++ [o])
+  outs.getLast?.getD ""
+
+def w1 := ["case f1", "req 0 io Q(L1,S1.2.3(L4))", "req 1 io Q(L1,S1.2.3(L4))", "start 0", "start 1", "fire 0 1", "ps 0", "end"]
+def w2 := ["case f2", "req 0 io S1.1.2(U(U(L3)))", "req 1 ooo L1", "start 0", "start 1", "drop 1", "fire 0 1", "ps 0", "end"]
+def w3 := ["case f3", "req 0 io D1.2", "req 1 io E1", "start 0", "start 1", "drop 0", "end"]
+def w4 := ["case f4", "req 0 io Q(C1,U(S1.2.3(E4)))", "req 1 io Q(C1,U(S1.2.3(E4)))", "start 0", "start 1", "ps 0", "ps 1",
+           "abort 0 1", "end"]
+
+#guard runLines true w1 == "r0:[1=0.0;2=0.0;3=0.0;4=1.0] r1:[1=1.0;2=1.0;3=1.0;4=1.0] ## fail unwrapped-stream-render"
+#guard runLines false w1 == "r0:[1=0.0;2=0.0;3=0.0;4=0.0] r1:[1=1.0;2=1.0;3=1.0;4=1.0] ## ok"
+#guard runLines true w2 == "r0:[1=0.0;2=0.0;3=0.0] r1:[1=1.0] ## fail late-owned-view"
+#guard runLines false w2 == "r0:[1=0.0;2=0.0;3=0.0] r1:[1=1.0] ## ok"
+#guard runLines true w3 == "r0:[2=1.0] r1:[1=1.0] ## fail action-future-unscoped"
+#guard runLines false w3 == "r0:[2=0.0] r1:[1=1.0] ## ok"
+#guard runLines true w4 == "r0:aborted r1:[1=a1;2=1.0;3=1.0;4=1.0] ## fail abort-cleanup-foreign-arena"
+#guard runLines false w4 == "r0:aborted r1:[1=a1;2=1.0;3=1.0;4=1.0] ## ok"
+
+/-- `lm_c20 old` runs the pre-repair table (to replay the old findings against an unrepaired tree) -/
+def main (args : List String) : IO Unit := runDriver step { old := args.contains "old" }
